@@ -568,7 +568,7 @@ def r5_serial_equals_worker(ctx):
 
 RULES = [
     ("C09-R1", r1_disjoint_writes, 16),
-    ("C09-R2", r2_readonly, 10),
+    ("C09-R2", r2_readonly, 8),
     ("C09-R3", r3_no_other_channel, 14),
     ("C09-R4", r4_lifecycle, 30),
     ("C09-R4b", r4b_shared_buffer_io, 8),
